@@ -252,13 +252,17 @@ def in_context(ctx, sig):
         return [op("go", body=[sig], n=2), draw(g("Bool"), "b")]
     if ctx == "custom_in_action":
         return [op("repeat", actions={"a": [draw(g("Custom", elem=g("Int8"), body=[sig], fresh=True), "c")]})]
+    if ctx == "then_custom":   # a non-fatal failure followed by a successful draw from a Custom generator
+        return [sig, draw(g("Custom", elem=g("Int8"), body=[], fresh=True), "c")]
+    if ctx == "action_then_custom":
+        return [op("repeat", actions={"a": [sig, draw(g("Custom", elem=g("Int8"), body=[], fresh=True), "c")]})]
     if ctx == "cleanup_skip_after":
         return [op("cleanup", body=[op("skip")]), sig]
     raise KeyError(ctx)
 
 
 CONTEXTS = ["body", "body_skip", "cleanup", "cleanup_then_skip", "custom", "custom_retry", "custom_cleanup", "custom_skip",
-            "action", "inv0", "inv_after", "goroutine", "custom_in_action", "cleanup_skip_after"]
+            "action", "inv0", "inv_after", "goroutine", "custom_in_action", "cleanup_skip_after", "then_custom", "action_then_custom"]
 POSITIONS = ["first", "middle", "last", "after_skips"]
 
 
@@ -269,7 +273,7 @@ def c02(tier, seed):
     for rep in range(reps):
         for (kind, extra), ctx, pos in itertools.product(KINDS, CONTEXTS, POSITIONS):
             nonfatal = kind in NONFATAL
-            if ctx in ("body_skip", "goroutine", "custom_skip") and not nonfatal:
+            if ctx in ("body_skip", "goroutine", "custom_skip", "then_custom", "action_then_custom") and not nonfatal:
                 continue   # a fatal signal ends the call; fatal calls from other goroutines are outside the statement
             if tier == "quick" and pos == "after_skips" and ctx not in ("body", "cleanup", "custom"):
                 continue
@@ -320,6 +324,9 @@ BEHAVIOURS = {
     "P": [draw(g("Bool"), "p")],
     "F": [op("fatalf", site=2)],
     "XC": [op("cleanup", body=[op("ctx")]), op("ctx"), draw(g("Bool"), "p")],   # context sampled in body and in cleanup
+    "CS": [op("cleanup", body=[op("skip")]), draw(g("Bool"), "p")],              # the last cleanup to run skips: an invalid test case
+    "CN": [op("cleanup", body=[op("errorf", text="cn")]), op("cleanupnil")],    # a nil cleanup registered after a failing one
+    "CNP": [op("cleanup", body=[op("ctx")]), op("cleanupnil"), draw(g("Bool"), "p")],
     "AL": [draw(g("Int8"), ""), draw(g("Bool"), "")],                           # unlabelled draws (draw bookkeeping)
 }
 
@@ -334,13 +341,15 @@ def c11(tier, seed):
         short = [s for s in seqs if len(s) <= 2]
         longer = [s for s in seqs if len(s) > 2]
         seqs = short + rng.sample(longer, 260)
-    extra = [("XC", "P"), ("XC", "XC", "P"), ("S", "XC", "P"), ("AL", "AL", "P"), ("AL", "S", "AL"), ("ES", "AL", "AL"), ("XC", "AL", "XC")]
+    extra = [("XC", "P"), ("XC", "XC", "P"), ("S", "XC", "P"), ("AL", "AL", "P"), ("AL", "S", "AL"), ("ES", "AL", "AL"), ("XC", "AL", "XC"),
+             ("CS", "XC", "P"), ("CS", "CS", "XC"), ("XC", "CS", "XC", "P"), ("CN", "P"), ("CNP", "P", "P"), ("CNP", "CN", "P"), ("P", "CN", "P", "P"),
+             ("CS", "P", "XC"), ("CNP", "XC", "P")]
     out = []
     for i, sq in enumerate(list(seqs) + extra):
         cases = {str(j + 1): BEHAVIOURS[b] for j, b in enumerate(sq)}
         fl = {"checks": len(sq) + 2, "seed": rng.randrange(1, 1 << 64), "nofailfile": "true", "shrinktime": "0s",
               "v": "true" if ("AL" in sq or i % 5 == 0) else "false"}
-        default = BEHAVIOURS["XC"] + BEHAVIOURS["AL"] if ("XC" in sq or "AL" in sq) else [draw(g("Bool"), "d")]
+        default = BEHAVIOURS["XC"] + BEHAVIOURS["AL"] if ("XC" in sq or "AL" in sq or "CS" in sq) else [draw(g("Bool"), "d")]
         out.append(scenario("c11-%s-%d" % ("_".join(sq), i), {"keyed": True, "cases": cases, "default": default}, fl,
                             tag={"seq": list(sq)}))
     return out
@@ -574,21 +583,23 @@ def sm_action(kind, rng):
         return [op("incvar", var="f"), iff("f", "ge", j, [op(rng.choice(["fatalf", "panic", "failnow"]), site=1)]), draw(g("Bool"), "v")]
     if kind == "nonfatal":
         return [op("incvar", var="e"), draw(g("Bool"), "v"), iff("e", "ge", j, [op(rng.choice(["errorf", "fail"]), text="nf")])]
+    if kind == "nonfatal_custom":   # a non-fatal failure, then a successful Custom draw in the same action
+        return [op("incvar", var="e"), iff("e", "ge", j, [op(rng.choice(["errorf", "fail"]), text="nf")]), draw(g("Custom", elem=g("Int8"), body=[]), "cv")]
     raise KeyError(kind)
 
 
 def c08(tier, seed):
     rng = random.Random(seed)
     out = []
-    kinds = ["ok", "ok2", "skipbefore", "skipafter", "alwaysskip", "alwaysskipafter", "fatal", "nonfatal"]
-    n = 70 if tier == "quick" else 2500
+    kinds = ["ok", "ok2", "skipbefore", "skipafter", "alwaysskip", "alwaysskipafter", "fatal", "nonfatal", "nonfatal_custom"]
+    n = 75 if tier == "quick" else 2500
     for i in range(n):
         k = rng.randrange(1, 5)
-        if i < 8:
+        if i < 9:
             chosen = [kinds[i]]
-        elif i < 14:
+        elif i < 15:
             chosen = [["alwaysskip"], ["alwaysskip", "alwaysskip"], ["alwaysskip", "alwaysskipafter"], ["skipbefore"], ["alwaysskipafter"],
-                      ["skipbefore", "alwaysskip"]][i - 8]
+                      ["skipbefore", "alwaysskip"]][i - 9]
         else:
             chosen = [rng.choice(kinds) for _ in range(k)]
         actions = {"act%d_%s" % (j, kd): sm_action(kd, rng) for j, kd in enumerate(chosen)}
@@ -676,7 +687,7 @@ def c06(tier, seed):
 
 def unusable_files(rng, name, n, valid_text):
     kinds = ["random", "trunc", "mutate", "huge", "negative", "nofield", "extrafield", "otherversion", "comments", "empty", "dir",
-             "longline", "passing", "invalid", "onechar", "prefixversion", "spaces", "nohex"]
+             "longline", "passing", "invalid", "onechar", "prefixversion", "spaces", "nohex", "randwords", "randwords", "extrafields"]
     ver = rapid_version()
     files = []
     for j in range(n):
@@ -721,6 +732,10 @@ def unusable_files(rng, name, n, valid_text):
             f["text"] = "%s#12345\n0" % ver
         elif k == "spaces":
             f["text"] = "   \n\t%s#7  \n  0x0 \n0x0\n\n0x0\n" % ver
+        elif k == "randwords":   # well-formed, current version, arbitrary words: replays to whatever it replays to (often runs out of data)
+            f["text"] = failfile_text([rng.choice([0, 1, rng.randrange(1 << 64), (1 << 53) - 1, 1 << 52]) for _ in range(rng.randrange(0, 60))])
+        elif k == "extrafields":
+            f["text"] = "%s#1#%s\n0x%x\n0x%x\n0x%x\n" % (ver, rng.choice(["", "2", "extra#field"]), rng.randrange(1 << 64), rng.randrange(1 << 64), rng.randrange(1 << 64))
         elif k == "nohex":
             f["text"] = "%s#7\n12\n0b11\n0o7\n077\n" % ver
         files.append(f)
@@ -736,6 +751,11 @@ def c17(tier, seed):
         "failing": lambda: {"body": t_threshold("Int64", 1000)},
         "skipping": lambda: {"body": [draw(g("Uint8"), "x", "x"), iff("x", "mod2", 0, [op("skip")])]},
         "nonfatal": lambda: {"body": t_nonfatal()},
+        "sm": lambda: {"body": [op("setvar", var="n", val="0"),
+                                op("repeat", actions={"inc": [draw(g("Bool"), "b"), op("incvar", var="n")], "skipafter": [draw(IntRange(0, 9), "r"), op("skip")],
+                                                      "pick": [draw(g("SampledFrom", items=["1", "2", "3"]), "s")]}, inv=[op("incvar", var="i")]),
+                                draw(g("Int"), "after")]},
+        "custom": lambda: {"body": [draw(g("Custom", elem=g("SliceOf", elem=g("Int8")), body=[draw(IntRange(0, 5), "a", "a"), iff("a", "le", 1, [op("skip")])]), "c")]},
     }
     valid = failfile_text([1, 40, 999999], seed=77, comments=("# [TestX] draw x: 999999", "#"))
     for i in range(n):
